@@ -523,6 +523,155 @@ fn run_timing(l: &[Sx]) -> Sx {
     sx::tagged("tobs", obs)
 }
 
+/// The bound and the no-stranding clause at the level of `listen` itself (C14): `n` long-lived peers arrive
+/// `stagger` ms apart; each sends one request, waits for the reply and keeps its connection for `hold` ms.
+///   (listen-bound <transport> <initial> <max> <n> <hold> <stagger> <opt>*)
+///   opt = (nostop)        no stop flag and no idle timeout (the acceptor blocks in accept); the server is
+///                         left behind when the case is over
+///       | (upgrade0)      the first peer's request upgrades its connection
+///       | (warm <k>)      before the measured phase an earlier `listen` in the same process grew its pool to
+///                         k workers and returned through its idle timeout
+/// Observation: (bobs (c <first-reply ms | -> <closed ms>)*)
+fn run_bound(l: &[Sx]) -> Sx {
+    let transport = l[1].as_atom().unwrap().to_string();
+    let initial = l[2].as_usize().unwrap();
+    let max = l[3].as_usize().unwrap();
+    let n = l[4].as_usize().unwrap();
+    let hold = l[5].as_usize().unwrap() as u64;
+    let stagger = l[6].as_usize().unwrap() as u64;
+    let opt = |name: &str| -> Option<Vec<Sx>> {
+        l.iter().skip(7).filter_map(|m| m.as_list()).find(|m| m.first().and_then(|a| a.as_atom()) == Some(name)).map(|m| m.to_vec())
+    };
+    let nostop = opt("nostop").is_some();
+    let upgrade0 = opt("upgrade0").is_some();
+    let warm: Option<usize> = opt("warm").and_then(|m| m.get(1).and_then(|x| x.as_usize()));
+    let svc = configs().remove(1).sx;
+    if let Some(k) = warm {
+        // phase 0: a listen() that grows to k workers and leaves through its idle timeout
+        let addr0 = fresh_addr("unix");
+        let built0 = build_service_opts(&svc, false);
+        let a0 = addr0.clone();
+        let srv = thread::spawn(move || {
+            let _ = varlink::listen(
+                built0.service,
+                &a0,
+                &varlink::ListenConfig { initial_worker_threads: 1, max_worker_threads: k + 1, idle_timeout: 1, stop_listening: None },
+            );
+        });
+        let mut hs = Vec::new();
+        for _ in 0..k {
+            let a = addr0.clone();
+            hs.push(thread::spawn(move || {
+                if let Some(mut c) = connect(&a) {
+                    c.set_timeout(Duration::from_millis(3000));
+                    let _ = c.write_all(b"{\"method\":\"org.varlink.service.GetInfo\"}\0");
+                    let mut b = [0u8; 4096];
+                    let _ = c.read(&mut b);
+                    thread::sleep(Duration::from_millis(300));
+                }
+            }));
+        }
+        for h in hs {
+            let _ = h.join();
+        }
+        let end = Instant::now() + Duration::from_millis(4000);
+        while !srv.is_finished() && Instant::now() < end {
+            thread::sleep(Duration::from_millis(10));
+        }
+    }
+    let addr = fresh_addr(&transport);
+    let stop = Arc::new(AtomicBool::new(false));
+    let built = build_service_opts(&svc, true);
+    let server = {
+        let addr = addr.clone();
+        let stop = stop.clone();
+        thread::spawn(move || {
+            varlink::listen(
+                built.service,
+                &addr,
+                &varlink::ListenConfig {
+                    initial_worker_threads: initial,
+                    max_worker_threads: max,
+                    idle_timeout: 0,
+                    stop_listening: if nostop { None } else { Some(stop) },
+                },
+            )
+            .is_ok()
+        })
+    };
+    // wait until the service answers connections
+    match connect(&addr) {
+        Some(c) => drop(c),
+        None => return sx::tagged("bobs", vec![sx::atom("no-server")]),
+    }
+    thread::sleep(Duration::from_millis(80));
+    let t0 = Instant::now();
+    let mut hs = Vec::new();
+    for i in 0..n {
+        let addr = addr.clone();
+        hs.push(thread::spawn(move || {
+            let target = t0 + Duration::from_millis(stagger * i as u64);
+            let now = Instant::now();
+            if target > now {
+                thread::sleep(target - now);
+            }
+            let mut conn = match connect(&addr) {
+                Some(c) => c,
+                None => return (None, t0.elapsed().as_millis() as u64),
+            };
+            conn.set_timeout(Duration::from_millis(4000));
+            let req: Vec<u8> = if upgrade0 && i == 0 {
+                let mut v = serde_json::to_vec(&serde_json::json!({"method":"org.example.s.Run","upgrade":true,
+                    "parameters":{"token":"t0z","script":[{"op":"upgrade"},{"op":"reply","p":{"token":"t0z"}}]}})).unwrap();
+                v.push(0);
+                v
+            } else {
+                b"{\"method\":\"org.varlink.service.GetInfo\"}\0".to_vec()
+            };
+            if conn.write_all(&req).is_err() {
+                return (None, t0.elapsed().as_millis() as u64);
+            }
+            let mut got = Vec::new();
+            let mut b = [0u8; 4096];
+            let first = loop {
+                match conn.read(&mut b) {
+                    Ok(0) | Err(_) => break None,
+                    Ok(k) => {
+                        got.extend_from_slice(&b[..k]);
+                        if got.contains(&0) {
+                            break Some(t0.elapsed().as_millis() as u64);
+                        }
+                    }
+                }
+            };
+            if first.is_some() {
+                thread::sleep(Duration::from_millis(hold));
+            }
+            conn.shutdown_write();
+            drop(conn);
+            (first, t0.elapsed().as_millis() as u64)
+        }));
+    }
+    let mut obs = Vec::new();
+    for h in hs {
+        let (first, closed) = h.join().unwrap_or((None, 0));
+        obs.push(sx::list(vec![sx::atom("c"), first.map(|f| sx::nat(f as usize)).unwrap_or_else(|| sx::atom("-")), sx::nat(closed as usize)]));
+    }
+    stop.store(true, Ordering::SeqCst);
+    if !nostop {
+        let end = Instant::now() + Duration::from_millis(4000);
+        while !server.is_finished() && Instant::now() < end {
+            thread::sleep(Duration::from_millis(10));
+        }
+    }
+    if let Some(p) = addr.strip_prefix("unix:") {
+        if !p.starts_with('@') {
+            let _ = std::fs::remove_file(p);
+        }
+    }
+    sx::tagged("bobs", obs)
+}
+
 /// A service started with socket activation (descriptor 3 = a filesystem unix socket bound by the
 /// harness) serves one client, runs into its idle timeout and exits: the socket path, which the service
 /// did not create, must still be there.   Observation: (aobs <served> <exited> <path-still-exists>)
@@ -731,6 +880,8 @@ impl Suite for ListenSuite {
         // timing cases spend their time waiting for real seconds
         if ctx.prop == "C15" {
             8
+        } else if ctx.prop == "C14" {
+            3
         } else {
             1
         }
@@ -740,6 +891,38 @@ impl Suite for ListenSuite {
         let mut rng = Rng::new(ctx.seed ^ 0x6c697374);
         let cfgs = socket_configs();
         let mut cases = Vec::new();
+        if ctx.prop == "C14" {
+            let bound = |t: &str, initial: usize, max: usize, n: usize, hold: usize, stagger: usize, opts: Vec<Sx>, tag: &str| -> Case {
+                let mut v = vec![sx::atom(t), sx::nat(initial), sx::nat(max), sx::nat(n), sx::nat(hold), sx::nat(stagger)];
+                v.extend(opts);
+                Case { input: sx::tagged("listen-bound", v), tags: vec![format!("bound:{}", tag), format!("cfg:{}x{}", initial, max)] }
+            };
+            cases.push(bound("unix", 1, 1, 3, 300, 40, vec![], "saturated-one-worker"));
+            cases.push(bound("unix", 1, 2, 5, 300, 40, vec![], "saturated-two-workers"));
+            cases.push(bound("tcp", 2, 3, 5, 300, 30, vec![], "saturated-three-workers"));
+            cases.push(bound("unix", 1, 4, 4, 300, 20, vec![], "below-the-limit"));
+            cases.push(bound("unix", 1, 2, 4, 300, 40, vec![sx::tagged("nostop", vec![])], "blocking-acceptor"));
+            cases.push(bound("unix", 1, 1, 2, 300, 40, vec![sx::tagged("nostop", vec![])], "blocking-acceptor-one-worker"));
+            cases.push(bound("unix", 1, 1, 2, 400, 60, vec![sx::tagged("upgrade0", vec![])], "upgraded-connection-holds-its-worker"));
+            cases.push(bound("unix", 1, 2, 4, 300, 40, vec![sx::tagged("upgrade0", vec![])], "upgraded-connection-holds-its-worker"));
+            cases.push(bound("unix", 1, 1, 3, 300, 40, vec![sx::tagged("warm", vec![sx::nat(3)])], "after-an-earlier-listen-with-a-larger-pool"));
+            if ctx.thorough {
+                for _ in 0..12 {
+                    let max = rng.range(1, 4);
+                    let initial = rng.range(1, max);
+                    let n = rng.range(2, max + 3);
+                    let mut opts = Vec::new();
+                    if rng.chance(1, 3) {
+                        opts.push(sx::tagged("nostop", vec![]));
+                    }
+                    if rng.chance(1, 3) {
+                        opts.push(sx::tagged("upgrade0", vec![]));
+                    }
+                    cases.push(bound(if rng.chance(1, 2) { "unix" } else { "tcp" }, initial, max, n, 200 + 50 * rng.below(5), 20 + 10 * rng.below(5), opts, "random"));
+                }
+            }
+            return cases;
+        }
         if ctx.prop == "C15" {
             // configuration x history matrix of the property
             for idle in [1usize, 2] {
@@ -1092,6 +1275,7 @@ impl Suite for ListenSuite {
             "listen-conc" => run_conc(l),
             "listen-timing" => run_timing(l),
             "listen-activated" => run_activated(l),
+            "listen-bound" => run_bound(l),
             other => panic!("case kind {}", other),
         }
     }
